@@ -91,59 +91,72 @@ class LockModel:
         if not acqs:
             self._body[body.path] = res
             return res
-        # state: frozenset of (local, acq idx)
-        n = len(body.blocks)
-        IN = {0: frozenset()}
-        work = [0]
-        held_term = {}
-        while work:
-            bb = work.pop()
-            st = set(IN[bb])
-            blk = body.blocks[bb]
-            for s in blk["stmts"]:
-                if s["k"] == "assign":
-                    rv = s["rv"]
-                    src = None
-                    if rv["k"] == "use" and rv["op"].get("k") == "move":
-                        src = rv["op"]["pl"]["l"]
-                    elif rv["k"] == "agg":
-                        for o in rv["ops"]:
-                            if o.get("k") == "move" and any(l == o["pl"]["l"] for l, _ in st):
-                                src = o["pl"]["l"]
-                    if src is not None:
-                        moved = {(l, a) for l, a in st if l == src}
-                        if moved:
-                            st -= moved
-                            dst = s["lhs"]["l"]
-                            st |= {(dst, a) for _, a in moved}
-                elif s["k"] == "dead":
-                    st = {(l, a) for l, a in st if l != s["l"]}
-            held_term[bb] = frozenset(a for _, a in st) | held_term.get(bb, frozenset())
-            t = blk["term"]
-            out = set(st)
-            if t:
-                if t["k"] == "drop":
-                    pl = t["pl"]
-                    if not pl["p"]:
-                        out = {(l, a) for l, a in out if l != pl["l"]}
-                elif t["k"] == "call":
-                    moved_args = [a["pl"]["l"] for a in t["args"] if a.get("k") == "move" and not a["pl"]["p"]]
-                    carried = {(l, a) for l, a in out if l in moved_args}
-                    if carried:
-                        out -= carried
-                        dty = t.get("dest_ty", "")
-                        if is_guard_ty(dty) or "MappedMutexGuard" in dty:
-                            out |= {(t["dest"]["l"], a) for _, a in carried}
-                        # else: consumed by the callee (mem::drop, ...) -> released
-                    if bb in acq_at:
-                        out.add((t["dest"]["l"], acq_at[bb]))
-            fo = frozenset(out)
-            for s2 in body.succs(bb):
-                old = IN.get(s2)
-                new = fo if old is None else (old | fo)
-                if new != old:
-                    IN[s2] = new
-                    work.append(s2)
+        def flow(must):
+            IN = {0: frozenset()}
+            work = [0]
+            held_term = {}
+            while work:
+                bb = work.pop()
+                st = set(IN[bb])
+                blk = body.blocks[bb]
+                for s in blk["stmts"]:
+                    if s["k"] == "assign":
+                        rv = s["rv"]
+                        src = None
+                        if rv["k"] == "use" and rv["op"].get("k") == "move":
+                            src = rv["op"]["pl"]["l"]
+                        elif rv["k"] == "agg":
+                            for o in rv["ops"]:
+                                if o.get("k") == "move" and any(l == o["pl"]["l"] for l, _ in st):
+                                    src = o["pl"]["l"]
+                        if src is not None:
+                            moved = {(l, a) for l, a in st if l == src}
+                            if moved:
+                                st -= moved
+                                dst = s["lhs"]["l"]
+                                st |= {(dst, a) for _, a in moved}
+                    elif s["k"] == "dead":
+                        st = {(l, a) for l, a in st if l != s["l"]}
+                cur = frozenset(a for _, a in st)
+                if must:
+                    held_term[bb] = cur if bb not in held_term else (held_term[bb] & cur)
+                else:
+                    held_term[bb] = cur | held_term.get(bb, frozenset())
+                t = blk["term"]
+                out = set(st)
+                if t:
+                    if t["k"] == "drop":
+                        pl = t["pl"]
+                        if not pl["p"]:
+                            out = {(l, a) for l, a in out if l != pl["l"]}
+                    elif t["k"] == "call":
+                        moved_args = [a["pl"]["l"] for a in t["args"] if a.get("k") == "move" and not a["pl"]["p"]]
+                        carried = {(l, a) for l, a in out if l in moved_args}
+                        if carried:
+                            out -= carried
+                            dty = t.get("dest_ty", "")
+                            if is_guard_ty(dty) or "MappedMutexGuard" in dty:
+                                out |= {(t["dest"]["l"], a) for _, a in carried}
+                            # else: consumed by the callee (mem::drop, ...) -> released
+                        if bb in acq_at:
+                            out.add((t["dest"]["l"], acq_at[bb]))
+                fo = frozenset(out)
+                for s2 in body.succs(bb):
+                    old = IN.get(s2)
+                    if old is None:
+                        new = fo
+                    elif must:
+                        # an acquisition is held for sure only if it is held (in whatever local) on every incoming path
+                        keep = {a for _, a in old} & {a for _, a in fo}
+                        new = frozenset((l, a) for l, a in (old | fo) if a in keep)
+                    else:
+                        new = old | fo
+                    if new != old:
+                        IN[s2] = new
+                        work.append(s2)
+            return held_term
+        held_term = flow(False)
+        res["must_held_at_term"] = flow(True)
         res["held_at_term"] = held_term
         self._body[body.path] = res
         return res
